@@ -608,7 +608,7 @@ theorem handle_res (m : M) (tok : Tok) (h : MInv m) : Res (handle m tok) := by
         split
         · next h2 => exact switchToFlag_res m tok true h c hc (Or.inr ⟨rfl, h2⟩)
         · split
-          · next hw => exact seeValue_res m tok h hw
+          · next hw => exact seeValue_res m tok h (by simp only [Bool.and_eq_true] at hw; exact hw.1)
           · cases hi : m.initial with
             | none =>
               simp only [Bool.false_eq_true, if_false]
